@@ -53,5 +53,49 @@ package fox
 //@ -- updateEdge overwrites one slot of n.children: n's children array must be owned by the writer
 //@ func (*node).updateEdge props C03 partial
 //@   requires n != nil && node != nil
+//@   requires safety-found: len(n.children) > 0
 //@   requires safety-sorted: len(n.children) > 50 ==> sortedBytes(n.childKeys)
 //@   modifies elems(n.children)
+
+//@ -- ---------------------------------------------------------------- tree mutation
+
+//@ -- a node the current write transaction may modify: created (with its children array) since the snapshot point
+//@ pred ownedNode(k *node) = ref(k) >= snapRef && (len(k.children) == 0 || ref(k.children) >= snapRef)
+//@ -- every node in the transaction's cache of already-copied nodes is owned
+//@ pred cacheOK(t *tXn) = snapRef <= nextref && (forall k *node :: {cachedIn[k]} cachedIn[k] < nextref) && (forall k *node :: {cachedIn[k]} t.writable != nil && cachedIn[k] == ref(t.writable) ==> ownedNode(k))
+
+//@ func (*tXn).updateMaxParams props C02
+//@   requires t != nil
+//@   modifies t.maxParams
+//@ func (*tXn).updateMaxDepth props C02
+//@   requires t != nil
+//@   modifies t.depth
+
+//@ func (roots).methodIndex props C02,C01 partial
+//@   ensures -1 <= result && result < len(r)
+
+//@ func (*tXn).addRoot props C03,C02 partial
+//@   requires t != nil
+//@   modifies t.root
+//@   ensures fresh(t.root) && len(t.root) == old(len(t.root)) + 1
+//@ func (*tXn).updateRoot props C03,C02 partial
+//@   requires t != nil && n != nil
+//@   modifies t.root
+//@   ensures t.root == old(t.root) || (fresh(t.root) && len(t.root) == old(len(t.root)))
+//@ func (*tXn).removeRoot props C03,C02 partial
+//@   requires t != nil
+//@   modifies t.root
+//@   ensures t.root == old(t.root) || fresh(t.root)
+
+//@ func (*tXn).copyOnWriteSearch props C03,C02 partial
+//@   requires t != nil && rootNode != nil && cacheOK(t)
+//@   modifies t.writable, t.root, cachedIn
+//@   modifies-since snapRef : E[*node]
+//@   ensures cache: cacheOK(t) && t.writable != nil
+//@   ensures owned: (result.p == nil || ownedNode(result.p)) && (result.pp == nil || ownedNode(result.pp)) && (result.ppp == nil || ownedNode(result.ppp))
+//@   ensures found: result.matched != nil && same(result.path, path) && (result.matched != rootNode ==> result.p != nil)
+//@   ensures roots: t.root == old(t.root) || (fresh(t.root) && len(t.root) == old(len(t.root)))
+//@   loop 1: invariant current != nil && (current != rootNode ==> p != nil) && t.writable != nil
+//@   loop 1: invariant cacheOK(t)
+//@   loop 1: invariant (p == nil || ownedNode(p)) && (pp == nil || ownedNode(pp)) && (ppp == nil || ownedNode(ppp))
+//@   loop 1: invariant t.root == old(t.root) || (fresh(t.root) && len(t.root) == old(len(t.root)))
